@@ -34,10 +34,11 @@ type KeyID string
 // https://matrix.org/docs/spec/server_server/unstable.html#signing-json
 func SignJSON(signingName string, keyID KeyID, privateKey ed25519.PrivateKey, message []byte) (signed []byte, err error) {
 	preserve := struct {
-		Signatures map[string]map[KeyID]spec.Base64Bytes `json:"signatures"`
-		Unsigned   spec.RawJSON                          `json:"unsigned"`
+		// The signatures of other entities and keys are carried over as they are.
+		Signatures map[string]map[KeyID]json.RawMessage `json:"signatures"`
+		Unsigned   spec.RawJSON                         `json:"unsigned"`
 	}{
-		Signatures: map[string]map[KeyID]spec.Base64Bytes{},
+		Signatures: map[string]map[KeyID]json.RawMessage{},
 	}
 	if err = json.Unmarshal(message, &preserve); err != nil {
 		return nil, err
@@ -52,15 +53,18 @@ func SignJSON(signingName string, keyID KeyID, privateKey ed25519.PrivateKey, me
 	if err != nil {
 		return nil, err
 	}
-	signature := spec.Base64Bytes(ed25519.Sign(privateKey, canonical))
+	signature, err := json.Marshal(spec.Base64Bytes(ed25519.Sign(privateKey, canonical)))
+	if err != nil {
+		return nil, err
+	}
 	if preserve.Signatures == nil {
 		// The message had "signatures": null.
-		preserve.Signatures = map[string]map[KeyID]spec.Base64Bytes{}
+		preserve.Signatures = map[string]map[KeyID]json.RawMessage{}
 	}
 	if preserve.Signatures[signingName] != nil {
 		preserve.Signatures[signingName][keyID] = signature
 	} else {
-		preserve.Signatures[signingName] = map[KeyID]spec.Base64Bytes{
+		preserve.Signatures[signingName] = map[KeyID]json.RawMessage{
 			keyID: signature,
 		}
 	}
